@@ -1483,6 +1483,9 @@ func (c *clipperBase) swapPositionsInAEL(ae1, ae2 *Active) {
 }
 
 func (c *clipperBase) checkJoinRight(e *Active, pt Point64, checkCurrX bool) {
+	if verifOn && verifSkipJoin(e, e.nextInAEL, pt, checkCurrX) {
+		return
+	}
 	next := e.nextInAEL
 	if next == nil ||
 		!isHotEdge(e) || !isHotEdge(next) ||
@@ -1521,6 +1524,9 @@ func (c *clipperBase) checkJoinRight(e *Active, pt Point64, checkCurrX bool) {
 }
 
 func (c *clipperBase) checkJoinLeft(e *Active, pt Point64, checkCurrX bool) {
+	if verifOn && verifSkipJoin(e, e.prevInAEL, pt, checkCurrX) {
+		return
+	}
 	prev := e.prevInAEL
 	if prev == nil ||
 		!isHotEdge(e) || !isHotEdge(prev) ||
